@@ -192,7 +192,15 @@ func (c17) Run(t *tape.Tape, cfg sim.Config) (res sim.Result) {
 	fsc := wazero.NewFSConfig()
 	switch cfg.Class {
 	case "readonly-dir":
-		fsc = fsc.WithReadOnlyDirMount(e.root, "/")
+		if t.Chance(1, 3) {
+			// the directory was first mounted writeable at the root, then the mount is REPLACED by a read-only
+			// one: every spelling of the root names the same guest path (documented normalisation)
+			roots := []string{"/", "", ".", "./"}
+			fsc = fsc.WithDirMount(e.root, tape.Pick(t, roots)).WithReadOnlyDirMount(e.root, tape.Pick(t, roots))
+			res.Stat("probe.read_only_mount_replaces_a_writeable_one", 1)
+		} else {
+			fsc = fsc.WithReadOnlyDirMount(e.root, "/")
+		}
 	case "gofs-dirfs":
 		fsc = fsc.WithFSMount(os.DirFS(e.root), "/")
 	case "gofs-mapfs":
